@@ -1355,13 +1355,25 @@ func gen1(r *Rand, prev *Input) Input {
 	// source+target on both sides of 2^32 (known heads at most 15 slots back, one call per instance:
 	// the float64 score 'source+target+1/(1+distance)' keeps the order of the exact one)
 	wideSlot := 0
-	if prev == nil && r.Chance(1, 10) {
+	wideDen := 10
+	switch in.Strategy {
+	case "AttBest", "AttMajority", "RootLatest", "RootMajority": // they compare slots or sum epochs
+		wideDen = 4
+	}
+	if prev == nil && r.Chance(1, wideDen) {
 		wideSlot = r.Range(1, 2)
+		if family(in.Strategy) == "root" {
+			wideSlot = 1
+		}
 		if wideSlot == 1 {
-			in.Slot = 1<<32 + uint64(r.Intn(int(2*in.SPE)))
+			in.Slot = 1<<32 + uint64(r.Intn(4))
+			if r.Chance(1, 3) {
+				in.Slot = 1<<32 + uint64(r.Intn(int(2*in.SPE)))
+			}
 		} else {
+			// source+target crosses 2^32 between source = epoch-3 and epoch-1 when the epoch is 2^31+1
 			in.SPE = 32
-			in.Slot = uint64(32*(int64(1)<<31+int64(r.Range(-2, 2)))) + uint64(r.Intn(32))
+			in.Slot = uint64(32*(int64(1)<<31+int64([]int{1, 1, 1, 0, 2, -1}[r.Intn(6)]))) + uint64(r.Intn(32))
 		}
 	}
 	in.Trace = r.Chance(1, 4)
